@@ -833,3 +833,83 @@ Proof.
   destruct (G es (mkVs ivs None []) HA eq_refl eq_refl Hb) as (G1 & G2 & _ & G4). cbv zeta in *.
   split; [exact G1|]. split; [exact G2|exact G4].
 Qed.
+
+Lemma owners_none : forall es p, (forall e, In e es -> ie_unknown e = []) -> owners es p = [].
+Proof.
+  intros es p H. unfold owners. induction es as [|e r IH]; cbn; [reflexivity|].
+  rewrite (H e (or_introl eq_refl)). cbn. apply IH. intros x Hx. apply H. right. exact Hx.
+Qed.
+
+Lemma own_inv_initial : forall s ivs0 es0,
+  build s = Some (ivs0, es0) ->
+  own_inv (vs_ivs (analyse_asts s ivs0 es0)) es0 /\ length (vs_ivs (analyse_asts s ivs0 es0)) = length ivs0.
+Proof.
+  intros s ivs0 es0 Hb.
+  destruct (build_spec _ _ _ Hb) as (B1 & B2 & B3).
+  pose proof (build_fresh _ _ _ Hb) as B4. pose proof (build_odes _ _ _ Hb) as B5.
+  assert (HA : Forall asts_iv ivs0).
+  { eapply Forall_impl; [|exact B4]. intros v ([T|T] & _ & I); split; try exact I; rewrite T; reflexivity. }
+  assert (Hpos : forall e d, In e es0 -> In d (ie_diffs e) -> ivar_of s ivs0 (snd d) < length ivs0).
+  { intros e d He Hd. rewrite Forall_forall in B2. destruct (B2 e He) as (D & _). rewrite Forall_forall in D.
+    destruct (D d Hd) as (_ & R). apply ivar_of_spec; [exact B1|]. apply B3; [exact R|]. apply in_range_comp in R. apply R. }
+  destruct (analyse_asts_types s ivs0 es0 HA Hpos) as (T1 & T2 & T3).
+  set (ivs := vs_ivs (analyse_asts s ivs0 es0)) in *.
+  assert (Hlen : length ivs = length ivs0).
+  { pose proof (f_equal (@length _) T2) as K. rewrite !map_length in K. exact K. }
+  split; [|exact Hlen].
+  assert (Hunk : forall e, In e es0 -> ie_unknown e = [] /\ ie_type e = EUnknown).
+  { intros e He. rewrite Forall_forall in B2. destruct (B2 e He) as (_ & _ & _ & _ & U & T). split; assumption. }
+  assert (Hown0 : forall p, owners es0 p = []).
+  { intro p. apply owners_none. intros e He. apply Hunk. exact He. }
+  constructor.
+  - intros e He _. apply Hunk. exact He.
+  - intros e p He Hp. rewrite Forall_forall in B5. destruct (B5 e He p Hp) as (d & D1 & D2 & _).
+    specialize (T3 e d He D1). rewrite D2 in T3. destruct (iv_type (geti ivs p)); cbn in T3; try discriminate; reflexivity.
+  - intros p Hp Hc. rewrite Forall_forall in T1. destruct (T1 _ (geti_In _ _ Hp)) as (T & _).
+    destruct (iv_type (geti ivs p)); cbn in T, Hc; discriminate.
+  - intros p Hp. unfold own_at. cbv zeta. rewrite Forall_forall in T1. destruct (T1 _ (geti_In _ _ Hp)) as (T & I).
+    split; [intros _; apply Hown0|]. split.
+    + intros [K|(_ & K)]; [destruct (iv_type (geti ivs p)); cbn in T, K; discriminate|].
+      unfold has_index in K. rewrite I in K. discriminate.
+    + intro K. rewrite K in T. discriminate.
+  - eapply Forall_impl; [|exact B2]. intros e He. eapply eq_ok_eq_inv. rewrite Hlen. exact He.
+Qed.
+
+(** The state of the analysis when the do/while loop stops: every internal variable that was given a direct type
+    (computed constant / algebraic, or a state that received its index) is listed in mUnknownVariables of exactly
+    one equation, which lists nothing else and whose type matches; a variable turned into an NLA unknown
+    (INITIALISED_ALGEBRAIC) is only listed by NLA equations; all other variables are listed by none. *)
+Theorem loop_definers : forall s ivs0 es0 st es1,
+  build s = Some (ivs0, es0) -> vs_issues (analyse_asts s ivs0 es0) = [] ->
+  loop s (loop_fuel es0) 1 false (mkCs (vs_ivs (analyse_asts s ivs0 es0)) 0 0) es0 = Some (st, es1) ->
+  own_inv (cs_ivs st) es1.
+Proof.
+  intros s ivs0 es0 st es1 Hb Hi Hl.
+  destruct (own_inv_initial _ _ _ Hb) as (H0 & Hlen).
+  destruct (build_spec _ _ _ Hb) as (B1 & B2 & B3). pose proof (build_fresh _ _ _ Hb) as B4.
+  destruct (analyse_asts_inv s ivs0 es0 B1 B3 B4 B2 Hi) as ((_ & _ & _ & _ & Hne) & _).
+  eapply loop_own; [exact Hl| |]; cbn [cs_ivs]; assumption.
+Qed.
+
+Corollary loop_definers_spelled : forall s ivs0 es0 st es1,
+  build s = Some (ivs0, es0) -> vs_issues (analyse_asts s ivs0 es0) = [] ->
+  loop s (loop_fuel es0) 1 false (mkCs (vs_ivs (analyse_asts s ivs0 es0)) 0 0) es0 = Some (st, es1) ->
+  forall p, p < length (cs_ivs st) ->
+    let v := geti (cs_ivs st) p in
+    (* directly computed: exactly one equation, computing only p, of the matching type *)
+    ((comp_type (iv_type v) = true \/ (iv_type v = VState /\ has_index v = true)) ->
+       exists e, filter (fun x => mem_nat p (ie_unknown x)) es1 = [e] /\ ie_unknown e = [p] /\ agree (iv_type v) (ie_type e) = true) /\
+    (* NLA unknown with an initial guess: only NLA equations *)
+    (iv_type v = VInitAlgebraic -> forall e, In e es1 -> mem_nat p (ie_unknown e) = true -> ie_type e = ENla) /\
+    (* not computed: no equation *)
+    ((pre_type (iv_type v) = true \/ (iv_type v = VState /\ has_index v = false)) ->
+       forall e, In e es1 -> mem_nat p (ie_unknown e) = false).
+Proof.
+  intros s ivs0 es0 st es1 Hb Hi Hl p Hp. cbv zeta.
+  pose proof (loop_definers _ _ _ _ _ Hb Hi Hl) as H. destruct (oi_own _ _ H p Hp) as (W1 & W2 & W3).
+  split; [exact W2|]. split.
+  - intros K e He Hm. apply (W3 K). unfold owners. apply filter_In. split; assumption.
+  - intros K e He. destruct (mem_nat p (ie_unknown e)) eqn:Em; [|reflexivity].
+    assert (Hin : In e (owners es1 p)) by (unfold owners; apply filter_In; split; assumption).
+    rewrite (W1 K) in Hin. destruct Hin.
+Qed.
